@@ -51,8 +51,23 @@ def word_memory(name="MW"):
 
 def byte_at(mem, a):
     if native():
+        if hasattr(mem, "cache"):          # (native stand-in for a word-contained S-MEM: a write-through cache system)
+            mem = mem.memory
         return int(mem.memory_file.get(a, UInt8(0)))
     return mem.byte(a)
+
+
+def word_contained_memory(st, name="L"):
+    """the data memory of a simulation with a data cache, as far as instruction execution can tell: S-MEM with the
+    word-containment rule (C03).  Natively: a real write-through cache system (backing store == logical contents) over
+    the flat memory holding the model's bytes."""
+    if native():
+        from architecture_simulator.uarch.memory.write_through_memory_system import WriteThroughMemorySystem
+        flat = Memory(AddressingType.BYTE, 32, True, range(LO, TOP))
+        flat.memory_file = sym_map(name, UInt8)
+        return WriteThroughMemorySystem(memory=flat, num_index_bits=0, num_block_bits=0, associativity=1,
+                                        performance_metrics=st.performance_metrics, miss_penality=0, replacement_strategy="lru")
+    return SpecMemory(sym_map(name, UInt8), LO, True)
 
 
 def havoc_state(mode="single_stage_pipeline", detect=True, tag=""):
